@@ -247,6 +247,17 @@ void SubprocessSet::HandlePendingInterruption() {
     interrupted_ = SIGTERM;
   else if (sigismember(&pending, SIGHUP))
     interrupted_ = SIGHUP;
+  else
+    return;
+  // The signal has been taken note of: take it off the queue as well.  Left
+  // pending it would be delivered, with its default action, as soon as the
+  // destructor restores the signal mask, and ninja would die of it instead of
+  // exiting with the status of an interrupted build.
+  sigset_t seen;
+  sigemptyset(&seen);
+  sigaddset(&seen, interrupted_);
+  int sig;
+  sigwait(&seen, &sig);
 }
 
 SubprocessSet::SubprocessSet() {
